@@ -29,7 +29,7 @@ var effectFreeFuncs = map[string]bool{
 	"encoding/json.Marshal": true, "reflect.DeepEqual": true, "reflect.TypeOf": true, "reflect.ValueOf": true,
 	"bytes.Equal": true, "bytes.Compare": true, "sort.SearchStrings": true, "sort.StringsAreSorted": true,
 	"(context.Context).Done": true, "(context.Context).Err": true, "(context.Context).Value": true, "(context.Context).Deadline": true,
-	"(error).Error": true,
+	"(error).Error":                          true,
 	"github.com/gogo/protobuf/proto.Marshal": true, "google.golang.org/protobuf/proto.Marshal": true,
 	"github.com/golang/protobuf/proto.Marshal": true, "github.com/gogo/protobuf/proto.Clone": true,
 	"github.com/golang/protobuf/proto.Clone": true, "google.golang.org/protobuf/proto.Clone": true,
@@ -147,6 +147,11 @@ func (f *frame) call(instr ssa.Instruction, common *ssa.CallCommon, st *State, r
 			callee = fv.Clo.Fn.(*ssa.Function)
 			bindings = fv.Clo.Bindings
 			key = callee.String()
+		}
+	}
+	if strings.HasPrefix(key, "regexp.") || strings.HasPrefix(key, "(*regexp.Regexp).") {
+		if v, handled := f.regexpCall(key, common, args, resT, st, reach, instr.Pos()); handled {
+			return v, nil
 		}
 	}
 	if key != "" {
